@@ -38,6 +38,7 @@ func main() {
 	step("collector", collectorPart)
 	step("collector-concurrent", concurrentDupPart)
 	step("proposal-path", proposalPathPart)
+	step("reorg", reorgPart)
 
 	r.Exhaustive(false) // the n<=4 box is exhaustive (see counters exhaustive.*), n=5..10 is sampled
 	r.Extra("exhaustive_box", "all multisets of <= n+2 entries over {valid, non-member, wrong-id, damaged, mismatch} x members, n = 1..4")
